@@ -16,7 +16,7 @@ import (
 // category is an exit whose destination is the legacy rule's destination, and
 // every rule has become a case of a category whose exit leads where the rule
 // led; the message template is migrated; migrating again changes nothing.
-// cover: shared-category, all-distinct, other-has-destination
+// cover: shared-category, all-distinct, other-has-destination, entry-not-topmost
 func VerifC16_Legacy() {
 	names := []string{"Red", "Green", zzverif.String("category-name", 2) + "x"}
 	for i := 0; i < len(names[2])-1; i++ {
@@ -39,6 +39,11 @@ func VerifC16_Legacy() {
 		otherDest = dests[1]
 		zzverif.Cover("other-has-destination")
 	}
+	// the entry action set is the topmost node or lies below the others (the legacy editor lets any node be the entry)
+	entryY := []string{"0", "400"}[zzverif.Choice("entry-below-other-nodes", 2)]
+	if entryY == "400" {
+		zzverif.Cover("entry-not-topmost")
+	}
 	quote := func(s string) string {
 		if s == "" {
 			return "null"
@@ -52,7 +57,7 @@ func VerifC16_Legacy() {
 	rules += `{"test": {"test": "true", "type": "true"}, "category": {"base": "Other"}, "destination": ` + quote(otherDest) + `, "uuid": "ee85d3a5-75af-4809-94b9-661c2e731c2a"}`
 	legacy := `{"rule_sets": [{"y": 106, "x": 100, "rules": [` + rules + `], "uuid": "80f2ae0b-492b-4bb1-9628-fb3dc191ab82", "label": "Color", "ruleset_type": "wait_message"}],
 	"action_sets": [
-	 {"y": 0, "x": 100, "destination": "80f2ae0b-492b-4bb1-9628-fb3dc191ab82", "uuid": "029c3266-39c1-4850-9d71-7e008dae2e65", "actions": [{"msg": {"base": "Hi @contact.first_name, pick @(SUM(1, 2) * 3)"}, "type": "reply", "uuid": "623c784f-5277-4dbc-9568-f7984dbc5c7b"}], "exit_uuid": "21eab42d-8cfd-4e1f-a4a0-cb7d069bc366"},
+	 {"y": ` + entryY + `, "x": 100, "destination": "80f2ae0b-492b-4bb1-9628-fb3dc191ab82", "uuid": "029c3266-39c1-4850-9d71-7e008dae2e65", "actions": [{"msg": {"base": "Hi @contact.first_name, pick @(SUM(1, 2) * 3)"}, "type": "reply", "uuid": "623c784f-5277-4dbc-9568-f7984dbc5c7b"}], "exit_uuid": "21eab42d-8cfd-4e1f-a4a0-cb7d069bc366"},
 	 {"y": 228, "x": 118, "destination": null, "uuid": "9e82371e-94f6-41cf-8a97-82aedc1ccadd", "actions": [{"msg": {"base": "You picked @flow.color"}, "type": "reply", "uuid": "988b0715-a553-435a-bc05-76389570b70b"}], "exit_uuid": "f659aa9f-492e-4872-82ce-e752719c3559"},
 	 {"y": 328, "x": 118, "destination": null, "uuid": "8e82371e-94f6-41cf-8a97-82aedc1ccadd", "actions": [{"msg": {"base": "Other"}, "type": "reply", "uuid": "888b0715-a553-435a-bc05-76389570b70b"}], "exit_uuid": "e659aa9f-492e-4872-82ce-e752719c3559"}],
 	"base_language": "base", "flow_type": "F", "entry": "029c3266-39c1-4850-9d71-7e008dae2e65",
